@@ -298,7 +298,7 @@ func Run(c *hx.Ctx) {
 		runScript(c, b, strings.Split(c.Args[1], ","))
 		return
 	}
-	if len(c.Args) == 1 && c.Args[0] == "e2e" { // only the end-to-end kind
+	if len(c.Args) >= 1 && c.Args[0] == "e2e" { // only the end-to-end kind (4 args: one given plan)
 		runE2E(c, hx.NewRng(c.Seed^0xe2e0e2e))
 		return
 	}
